@@ -154,6 +154,7 @@ class NcpSim:
         self.network = None
         self.stack_up = False
         self.security = None
+        self.children = {}          # the child table belongs to the network that is left
         self.emit_status(False)
         return [self.st(True)]
 
